@@ -25,9 +25,13 @@ from __future__ import annotations
 import asyncio
 import heapq
 import json
+import logging
 import os
 import tempfile
 from unittest.mock import AsyncMock, MagicMock, patch
+
+logging.getLogger("pyhap").setLevel(logging.CRITICAL + 1)
+logging.getLogger("asyncio").setLevel(logging.CRITICAL + 1)
 
 TICK = 1.0 / 16.0
 EPOCH = 1_700_000_000.0
@@ -149,6 +153,8 @@ class World:
         for p in self._patches:
             p.start()
         asyncio.events._set_running_loop(self.loop)
+        self.loop_errors = []
+        self.loop.set_exception_handler(lambda lp, c: self.loop_errors.append(repr(c.get("exception") or c.get("message"))))
         self.zc = MagicMock()
         self.zc.async_register_service = AsyncMock()
         self.zc.async_update_service = AsyncMock()
@@ -204,6 +210,7 @@ class World:
     # ------------------------------------------------------------------ plumbing
     def close(self):
         try:
+            self.loop.set_exception_handler(lambda lp, c: None)
             for h in list(self.loop._scheduled):
                 h.cancel()
             for t in asyncio.all_tasks(self.loop):
@@ -388,8 +395,19 @@ def parse_messages(data: bytes, iid_to_x):
         for ln in lines[1:]:
             k, _, v = ln.partition(b":")
             hdr[k.strip().lower()] = v.strip()
-        n = int(hdr.get(b"content-length", b"0"))
-        body, data = rest[:n], rest[n:]
+        if hdr.get(b"transfer-encoding", b"").lower() == b"chunked":
+            body = b""
+            while True:
+                size, _, rest = rest.partition(b"\r\n")
+                k = int(size.split(b";")[0] or b"0", 16)
+                body += rest[:k]
+                rest = rest[k + 2:]
+                if k == 0:
+                    break
+            data = rest
+        else:
+            n = int(hdr.get(b"content-length", b"0"))
+            body, data = rest[:n], rest[n:]
         if status[0] == b"EVENT/1.0":
             chars = json.loads(body)["characteristics"]
             ents = []
@@ -431,6 +449,7 @@ def run_script(ops, crypto_conns=(), want_digests=True):
             "final": w.digest(),
             "addr": [w.transports[i].get_extra_info("peername")[1] - 50000 for i in range(len(w.protos))],
             "nobj": len(w.protos),
+            "loop_errors": list(w.loop_errors),
         }
     finally:
         w.close()
